@@ -110,6 +110,9 @@ type c19Plan struct {
 	InFlight int           `json:"in_flight"`
 	Stop     bool          `json:"stop"` // end the plan with Server.Stop while idle connections are open
 	Cycles   int           `json:"cycles,omitempty"`
+	// Reconfig: a port of the running server is reconfigured at run time before the final Stop:
+	// setport0 | settlsport0 (by the embedding program), config-port0 | config-tlsport0 | config-port-text (CONFIG SET by a client)
+	Reconfig string `json:"reconfig,omitempty"`
 }
 
 func (p c19Plan) describe() string {
@@ -117,7 +120,7 @@ func (p c19Plan) describe() string {
 	for _, c := range p.Conns {
 		parts = append(parts, fmt.Sprintf("%s/%d", c.Mode, c.Reqs))
 	}
-	return fmt.Sprintf("in_flight=%d stop=%v cycles=%d conns=[%s]", p.InFlight, p.Stop, p.Cycles, strings.Join(parts, " "))
+	return fmt.Sprintf("in_flight=%d stop=%v cycles=%d reconfig=%q conns=[%s]", p.InFlight, p.Stop, p.Cycles, p.Reconfig, strings.Join(parts, " "))
 }
 
 // settleBudget bounds the wait for in-flight kernel events and goroutine scheduling after a churn; a leak never
@@ -328,6 +331,12 @@ func evalC19Plan(p c19Plan) *Failure {
 	}
 	var series []string
 	for cy := 0; cy < cycles; cy++ {
+		mu.Lock()
+		failed := len(fails) > 0
+		mu.Unlock()
+		if failed && !(p.Stop && cy == cycles-1) {
+			continue // a connection of an earlier cycle has failed already: go straight to the end of the plan
+		}
 		idle := make(chan struct{})
 		sem := make(chan struct{}, p.InFlight)
 		var wg, idleWg, stallWg sync.WaitGroup
@@ -407,8 +416,30 @@ func evalC19Plan(p c19Plan) *Failure {
 			for len(srv.Conns()) < nIdle && time.Now().Before(deadline) {
 				time.Sleep(time.Millisecond)
 			}
+			switch p.Reconfig {
+			case "setport0":
+				srv.SetPort(0)
+			case "settlsport0":
+				srv.SetTLSPort(0)
+			case "config-port0", "config-tlsport0", "config-port-text":
+				args := map[string][]string{"config-port0": {"CONFIG", "SET", "port", "0"}, "config-tlsport0": {"CONFIG", "SET", "tls-port", "0"}, "config-port-text": {"CONFIG", "SET", "port", "off"}}[p.Reconfig]
+				if cc, err := net.DialTimeout("tcp", plainAddr, 5*time.Second); err == nil {
+					roundTrip(cc, resp.Cmd(args...).Bytes(), 5*time.Second)
+					cc.Close()
+				}
+			}
 			close(leave) // some clients disconnect on their own while Stop sweeps the registry
-			if err := srv.Stop(); err != nil {
+			stopErr := make(chan error, 1)
+			go func() { stopErr <- srv.Stop() }()
+			var err error
+			select {
+			case err = <-stopErr:
+			case <-time.After(30 * time.Second):
+				stopped = true // the cleanup must not call the hanging Stop again
+				close(idle)
+				return failf("c19|stop-hangs", "%s: Stop did not return within 30s", what)
+			}
+			if err != nil {
 				close(idle)
 				idleWg.Wait()
 				return failf("c19|stop-error", "%s: Stop returned %v", what, err)
@@ -471,7 +502,7 @@ func TestC19(t *testing.T) {
 	h := newHarness(t, "C19", "ending modes {FIN at a request boundary, FIN inside a request at every sampled offset, full close, QUIT with requests pipelined behind it, malformed frame at a random position, write failure after N bytes, rejected certificate} x position in a pipeline on scripted connections "+
 		"(exact cut offsets and write failures injected deterministically; Close calls counted), and churn plans on real loopback TCP/TLS: 1..32 connections in flight mixing {FIN, FIN mid-request, RST (linger 0), QUIT, malformed frame, peer that stops reading then resets, "+
 		"QUIT / malformed frame with the client keeping its own end open, TLS ok, TLS without certificate, TLS with a rejected name, garbage on the TLS port, idle until Server.Stop, leaving on their own exactly when Stop sweeps, TLS handshake never started until Stop}. Oracle: per connection the socket is closed (client sees EOF/reset), the loop returned and the registry entry is gone; per plan, after a settle budget of 15 s (what is judged is the final state), "+
-		"the server goroutine count, len(Conns()) and the /proc/self/fd count are back at the values sampled before the plan. Thorough: up to 10^4 connection endings per plan in repeated cycles. "+
+		"the server goroutine count, len(Conns()) and the /proc/self/fd count are back at the values sampled before the plan. A third of the plans that end with Stop first reconfigure a listening port at run time (SetPort(0)/SetTLSPort(0), or CONFIG SET port|tls-port by a client): Stop must still return and release everything. One fixed plan accumulates 90 (thorough: 600) failing TLS handshakes on one server, then well-behaved clients, then Stop. Thorough: up to 10^4 connection endings per plan in repeated cycles. "+
 		"Non-trivial: the plan mixes >=3 ending modes with >=4 connections in flight (scripted: an ending other than FIN at a boundary). Distinct = distinct case.")
 	defer h.Finish()
 	h.Probes()
@@ -507,6 +538,16 @@ func TestC19(t *testing.T) {
 	if nplans < 5 {
 		nplans = 5
 	}
+	// state that accumulates over the life of one server: many failing TLS handshakes, then well-behaved clients, then Stop
+	{
+		churn := c19Plan{InFlight: 2, Stop: true, Cycles: h.N(45, 300) / 1,
+			Conns: []c19ConnSpec{{Mode: "tls-garbage"}, {Mode: "tls-nocert"}, {Mode: "tls-ok", Reqs: 1}, {Mode: "fin", Reqs: 1}, {Mode: "idle", Reqs: 1}, {Mode: "idle-tls-stall"}}}
+		if h.Shard == h.NShards-1 {
+			h.Col.Case(true, []byte(churn.describe()), "handshake-failure-churn")
+			h.Report("c19.plan", churn, evalC19Plan(churn))
+		}
+	}
+
 	h.Rapid("plans", nplans, func(rt *rapid.T) {
 		p := c19Plan{InFlight: rapid.SampledFrom([]int{1, 2, 4, 8, 16, 32}).Draw(rt, "inflight"), Stop: rapid.IntRange(0, 2).Draw(rt, "stop") == 0}
 		n := rapid.IntRange(1, 24).Draw(rt, "nconns")
@@ -518,6 +559,10 @@ func TestC19(t *testing.T) {
 		}
 		if h.Thorough() && rapid.IntRange(0, 9).Draw(rt, "long") == 0 {
 			p.Cycles = rapid.IntRange(50, 400).Draw(rt, "cycles")
+		}
+		if p.Stop && rapid.IntRange(0, 2).Draw(rt, "reconf") == 0 {
+			p.Reconfig = rapid.SampledFrom([]string{"setport0", "settlsport0", "config-port0", "config-tlsport0", "config-port-text"}).Draw(rt, "reconfig")
+			p.Conns = append(p.Conns, c19ConnSpec{Mode: "idle", Reqs: 1}, c19ConnSpec{Mode: "idle-tls-stall"})
 		}
 		h.Col.Case(len(seen) >= 3 && p.InFlight >= 4 && n >= 4, []byte(p.describe()), "plan")
 		if h.Col.WantSample() {
